@@ -142,12 +142,13 @@ TAG_RE = re.compile(r"^(STUBPRE)?\[([A-Z0-9, ]+)\]\s*(.*)$")
 
 
 class Obligation:
-    __slots__ = ("name", "desc", "status", "loc", "kind", "props", "job")
+    __slots__ = ("name", "desc", "status", "loc", "kind", "props", "job", "case")
 
     def __init__(self, job, name, desc, status, loc):
         self.job, self.name, self.desc, self.status, self.loc = job, name, desc, status, loc
         self.kind = "auto"
         self.props = None
+        self.case = None
         if desc.startswith("CANARY"):
             self.kind = "canary"
         else:
@@ -460,11 +461,68 @@ def run_job(scr, job, small=False, trace_prop=None, timeout=None):
 # Scheduling
 # --------------------------------------------------------------------------
 
+def expand_cases(job):
+    """A job may partition its input space into exhaustive cases
+    (job["cases"] = [(label, C-condition), ...]; the harness assumes
+    XV_CASE_COND).  Each case is compiled and discharged separately; an
+    obligation counts as discharged only if it is discharged in every case,
+    and a reachability canary must be reached in at least one."""
+    if not job.get("cases"):
+        return [job]
+    subs = []
+    for label, cond in job["cases"]:
+        sj = dict(job)
+        sj["name"] = "%s#%s" % (job["name"], label)
+        sj["defs"] = list(job.get("defs", [])) + ["XV_CASE_COND=(%s)" % cond]
+        sj["_parent"] = job["name"]
+        sj.pop("cases")
+        subs.append(sj)
+    return subs
+
+
+def merge_cases(job, subresults):
+    res = JobResult(job["name"])
+    merged = {}
+    order = []
+    for sr in subresults:
+        res.solver_s += sr.solver_s
+        res.wall_s = max(res.wall_s, sr.wall_s)
+        res.cmds = sr.cmds or res.cmds
+        res.warnings += sr.warnings
+        res.loops_contracted = sr.loops_contracted or res.loops_contracted
+        res.loops_unwound = sr.loops_unwound or res.loops_unwound
+        res.workdir = sr.workdir
+        if sr.error:
+            res.error = "%s: %s" % (sr.job, sr.error)
+            continue
+        for o in sr.obligations:
+            key = (o.name, o.desc)
+            if key not in merged:
+                no = Obligation(job["name"], o.name, o.desc, o.status, o.loc)
+                no.case = sr.job if o.status != "SUCCESS" else None
+                merged[key] = no
+                order.append(key)
+            else:
+                m = merged[key]
+                if o.status != "SUCCESS" and m.status == "SUCCESS":
+                    m.status = o.status
+                    m.case = sr.job
+                elif o.status not in ("SUCCESS", "FAILURE"):
+                    m.status = o.status
+    res.obligations = [merged[k] for k in order]
+    return res
+
+
 def run_jobs(scr, jobs, small=False):
     """Run jobs in parallel under a memory budget."""
     results = {}
     lock = threading.Condition()
     state = {"mem": 0.0, "running": 0}
+    parents = {j["name"]: j for j in jobs}
+    expanded = []
+    for j in jobs:
+        expanded += expand_cases(j)
+    jobs = expanded
     order = sorted(jobs, key=lambda j: -j.get("mem_gb", 2))
 
     def worker(job):
@@ -481,16 +539,24 @@ def run_jobs(scr, jobs, small=False):
                 state["mem"] -= need
                 state["running"] -= 1
                 lock.notify_all()
-        log("  job %-34s %6.1fs  %s" % (job["name"], r.wall_s,
-                                         "TOOL-ERROR" if r.error else
-                                         "%d obligations" % len(r.obligations)))
+        if not job.get("_parent") or r.error:
+            log("  job %-34s %6.1fs  %s" % (job["name"], r.wall_s,
+                                             "TOOL-ERROR" if r.error else
+                                             "%d obligations" % len(r.obligations)))
         return r
 
     with concurrent.futures.ThreadPoolExecutor(max_workers=max(NCPU, 2)) as ex:
         futs = {ex.submit(worker, j): j for j in order}
         for f in concurrent.futures.as_completed(futs):
             results[futs[f]["name"]] = f.result()
-    return results
+    final = {}
+    for name, pj in parents.items():
+        if pj.get("cases"):
+            subs = [results["%s#%s" % (name, lab)] for lab, _ in pj["cases"]]
+            final[name] = merge_cases(pj, subs)
+        else:
+            final[name] = results[name]
+    return final
 
 
 # --------------------------------------------------------------------------
@@ -596,6 +662,11 @@ def investigate(scr, job, ob):
     code.  Returns the replay record (dict)."""
     rec = {"job": job["name"], "obligation": ob.name, "description": ob.desc,
            "location": ob.brief()["location"], "attempts": []}
+    if job.get("cases") and getattr(ob, "case", None):
+        sub = [sj for sj in expand_cases(job) if sj["name"] == ob.case]
+        if sub:
+            job = sub[0]
+            rec["case"] = ob.case
     for small in (True, False):
         r = run_job(scr, job, small=small, trace_prop=ob.name,
                     timeout=job.get("timeout", 900))
